@@ -803,6 +803,22 @@ class EvalMixin:
             prev = getattr(seq, 'filter', None)
             out.filter = (lambda e: z3.And(prev(e), filt(e))) if prev else filt
             return out
+        if isinstance(seq, SRef) and seq.shape.cls in CONTAINERS and CONTAINERS[seq.shape.cls][0] == 'list' and g.ifs and ident:
+            from .builtins_impl import VFilteredList
+            store_then = self.path.snapshot()
+            ex = self
+
+            def cond(elem):
+                cur = ex.path.store
+                ex.path.store = dict(store_then)
+                try:
+                    c = z3.BoolVal(True)
+                    for cnd in g.ifs:
+                        c = z3.And(c, ex.spec_bool(cnd, {g.target.id: elem}))
+                    return c
+                finally:
+                    ex.path.store = cur
+            return VFilteredList(seq, cond)
         if isinstance(seq, SRef) and seq.shape.cls in CONTAINERS and CONTAINERS[seq.shape.cls][0] == 'list' and not g.ifs:
             P = self.path
             ln = P.read_field(seq, 'len').e
